@@ -145,6 +145,12 @@ def _catalogue():
         for d in ("sample", "feature"):
             E.append(_sel_entry(kind, d))
     E.append(_sel_entry("VoronoiFPS", "sample"))
+    for kind, d in (("FPS", "feature"), ("PCovFPS", "sample"), ("PCovFPS", "feature"), ("VoronoiFPS", "sample")):
+        e4 = _sel_entry(kind, d)
+        e4["name"] = "%s/%s/initialize=random" % (kind, d)
+        mk4 = e4["make"]
+        e4["make"] = lambda a, mk4=mk4: _with(mk4(a), initialize="random")
+        E.append(e4)
     for kind, d in (("FPS", "sample"), ("CUR", "feature"), ("PCovFPS", "feature")):
         e3 = _sel_entry(kind, d)
         e3["name"] = "%s/%s/relative-threshold" % (kind, d)
